@@ -141,7 +141,7 @@ func meaningKeys(j *ast.Journal) []string {
 			out = append(out, fmt.Sprintf("account %q comment%q[%s] %v", v.Account.Name, strings.TrimSpace(v.Comment), tagsKey(v.Tags), v.Subdirs))
 		case ast.CommodityDirective:
 			// a directive line may lose its trailing blanks: an unterminated quoted symbol ends with the line
-			out = append(out, fmt.Sprintf("commodity %q format%q %v", strings.TrimRight(v.Commodity.Symbol, " \t"), v.Format, v.Subdirs))
+			out = append(out, fmt.Sprintf("commodity %q format%q %v", strings.TrimRight(v.Commodity.Symbol, " \t"), strings.TrimRight(v.Format, " \t"), v.Subdirs))
 		case ast.PriceDirective:
 			// as above: an unterminated quoted symbol at the end of the line loses its trailing blanks
 			price := v.Price
